@@ -209,4 +209,17 @@ Section Level.
     intros fuel partition perms p2 i2 imp tie Hmt Hlen Hpart H.
     rewrite <- !(Phi_newman g m res dirg _ Hmt). eapply level_result_ge_singletons; eassumption.
   Qed.
+
+  Theorem level_result_length : forall fuel partition perms p2 i2 imp tie,
+    length partition = n ->
+    (forall c p, nth_error partition c = Some p -> NoDup p /\ forall x, In x p <-> In x (attr_of g c)) ->
+    compute_one_level fuel g m partition res perms = Ok (p2, i2, imp, tie) ->
+    (length i2 <= n)%nat.
+  Proof.
+    intros fuel partition perms p2 i2 imp tie Hlen Hpart H. unfold compute_one_level in H.
+    apply bind_ok in H. destruct H as [s [Hs H]]. inversion H. subst p2 i2 imp tie.
+    destruct (level_bookkeeping fuel partition perms s Hlen Hpart Hs) as [_ [_ [_ [_ Hl]]]].
+    rewrite <- Hl. clear. induction (ls_inner s) as [|x t IH]; cbn [filter length]; [lia|].
+    destruct (nonempty x); cbn [length]; lia.
+  Qed.
 End Level.
